@@ -274,7 +274,7 @@ pub fn main(ctx: &Ctx) -> ! {
     let strat = (case_strategy(gc, 3), any::<u8>()).boxed();
     campaign(
         ctx,
-        CampaignCfg { stream: "c09", cases: ctx.pick(4_000, 40_000), batch: 128, max_shrink: ctx.pick(600, 3000) },
+        CampaignCfg { stream: "c09", cases: ctx.pick(4_000, 80_000), batch: 128, max_shrink: ctx.pick(600, 3000) },
         &strat,
         &mut report,
         // 85 % of the cases avoid every shape with a confirmed finding so that the rest of the
